@@ -323,6 +323,44 @@ def token_case(how, tc, rng):
 
 # ------------------------------------------------------------------ recorded calls (traces)
 
+def record_fault(rng):
+    """format_field with a token iterator that raises after k tokens, then the identical call with a sound iterator
+    -> [(event, info), (event, info)]"""
+    from comment_x17 import X17Fault
+    from debian._deb822_repro.formatter import format_field, one_value_per_line_trailing_separator as fmt
+    sep = rng.choice(["sp", "cm", "tab", "semi"])
+    n = rng.choice([1, 2, 3, 5, 9])
+    inp = [[k, "w" if k == "V" else "ok" if k == "C" else "s", i + 1] for i, k in enumerate(rng.choice("VVCS") for _ in range(n))]
+    if inp[-1][0] != "V":
+        inp.append(["V", "w", len(inp) + 1])
+    stream = Stream(inp, sep, rng, rng.choice([0, 1]))
+    name = name_of_len(rng, rng.choice([1, 4, 16, 73]))
+    septok = stream.sep_token(rng)
+    k = rng.randrange(len(stream.toks) + 1)
+
+    def faulty():
+        for i, t in enumerate(stream.toks):
+            if i >= k:
+                raise X17Fault("token %d cannot be read" % (i + 1))
+            yield t
+        raise X17Fault("the token iterator cannot be read to its end")
+    try:
+        text = format_field(fmt, name, septok, faulty())
+        res = "ok"
+    except X17Fault:
+        res, text = "CallerError", ""
+    except Exception as ex:      # noqa: BLE001
+        if not from_repo(ex):
+            raise
+        res, text = type(ex).__name__, str(ex)
+    inp2 = classify_tokens(stream.toks)
+    first = ({"form": "fault", "sep": sep, "nl": len(name), "inp": inp2, "res": {"v": res, "out": []}}, dict(name=name, text=text, texts=stream.texts))
+    res2, text2 = call_format_field(name, septok, stream.toks, "iter", rng)
+    out = lex_output(text2, name, septok.text, stream) if res2 == "ok" else []
+    second = ({"form": "iter", "sep": sep, "nl": len(name), "inp": inp2, "res": {"v": res2, "out": out}}, dict(name=name, text=text2, texts=stream.texts))
+    return [first, second]
+
+
 def record_call(rng, size):
     """one random call of format_field on the stock formatter -> trace event (+ description for messages)"""
     stress = rng.choice([0, 1, 1, 2])
